@@ -25,6 +25,10 @@ Known-finding triggers (never generated in the main stream, see known_findings.d
   merge-loopdep nested associate inside a loop whose selector depends on the loop variable (do_merge_associates)
   merge-empties-inner nested associate all of whose selectors are independent of the parent block: every
                association is moved up and an invalid 'ASSOCIATE ()' is left behind (do_merge_associates)
+  merge-subscript-dep nested selector whose *subscript* is an associate name of an enclosing block: the
+               association is moved next to the name it depends on (do_merge_associates)
+The main stream never generates these triggers (props/c29.py does not run the hazard sub-streams any more; they
+only serve to produce the minimal replay files, see ``minimal_cases``).
 Documented as unsupported by loki (warning 'Bounds shifts through association is currently not supported')
 and therefore never generated: section selectors with an explicit lower bound other than 1.
 """
@@ -33,7 +37,11 @@ from hypothesis import strategies as st
 from .model import var, lit, decl, routine, module
 from . import gen as B
 
-HAZARDS = ['sect-lb', 'sect-stride', 'open-range', 'merge-shadow', 'merge-loopdep', 'merge-empties-inner']
+HAZARDS = ['sect-lb', 'sect-stride', 'open-range', 'merge-shadow', 'merge-loopdep', 'merge-empties-inner', 'merge-subscript-dep']
+# triggers of listed known findings that the main stream must not generate (exclusion by construction; remove a tag
+# once its fix is committed and its known: line has become a fixed: line)
+EXCLUDED_TRIGGERS = {'sect-lb', 'sect-stride', 'open-range', 'merge-shadow', 'merge-loopdep', 'merge-empties-inner',
+                     'merge-subscript-dep'}
 
 STMT_PROFILE = B.profile(print=False, comments=False, internal=False, real_class='dyadic', max_depth=3,
                          max_stmts=4, expr_depth=2, n_helpers=1, stmtfunc=False, inquiry=True)
@@ -218,7 +226,7 @@ def sel_env(env, a):
     return e
 
 
-def sel_subscripts(g, se, name):
+def sel_subscripts(g, se, name, a=None):
     """
     in-bounds subscripts for use inside a selector: non-negative literals, enclosing loop variables, loop
     variable + 1. (No '-', '/', negative literals: the loki frontend raises NotImplementedError/ValueError
@@ -226,6 +234,11 @@ def sel_subscripts(g, se, name):
     """
     v = se.vars[name]
     subs = []
+    aliases = sorted(nm for nm, vv in se.vars.items() if vv.get('alias_n') and vv.get('aname'))
+    if aliases and a is not None and a.merge_safe and a.adepth >= 1 and 'merge-subscript-dep' not in a.allow:
+        # known finding merge-subscript-dep: do_merge_associates moves `z => b(p)` next to `p => n`
+        a.avoided.append('merge-subscript-dep')
+        aliases = []
     for d in v['dims']:
         lb, ubmin = B.dim_range(d)
         choices = ['lit'] * 2
@@ -238,20 +251,28 @@ def sel_subscripts(g, se, name):
                 choices += ['loop:' + lv] * 3
             elif lo + 1 >= lb and hi + 1 <= ubmin:
                 choices.append('loopp1:' + lv)
+        # an associate name of an enclosing block that denotes n (3 <= n <= NMAX)
+        if lb <= se.nval_range[0] and (d[1] == 'n' or (isinstance(d[1], int) and d[1] >= se.nval_range[1])):
+            for nm in aliases:
+                choices += ['alias:' + nm] * 2
         c = g.pick(choices)
         if c == 'lit':
             subs.append(lit(g.i(max(lb, 0), ubmin)))
         elif c.startswith('loop:'):
             subs.append(var(c[5:]))
+        elif c.startswith('alias:'):
+            subs.append(var(c[6:]))
+            if a is not None:
+                a.feats.add('sel-subscript:assoc-name')
         else:
             subs.append(['b', '+', var(c[7:]), ['i', 1]])
     return subs
 
 
-def sel_element(g, se, name):
+def sel_element(g, se, name, a=None):
     base = B.designator_for(se, name)
     parts = [list(x) for x in base[1]]
-    parts[-1][1] = sel_subscripts(g, se, name)
+    parts[-1][1] = sel_subscripts(g, se, name, a)
     return ['d', parts]
 
 
@@ -261,13 +282,21 @@ def pick_selector(g, env, a):
     names = [n for n, v in env.vars.items() if not v.get('fuel')]
     if not names:
         return None
-    kinds = ['scalar'] * 3 + ['elem'] * 3 + ['whole'] * 2 + ['section'] * 4
+    kinds = ['scalar'] * 3 + ['elem'] * 3 + ['whole'] * 2 + ['section'] * 4 + ['alias-n']
     if not (a.merge_safe and a.adepth >= 1):
         # (do_merge_associates raises AttributeError on value selectors of nested blocks: expr.scope -> rejected_by_loki)
         kinds += ['expr']
     if any(v.get('dt') for v in env.vars.values()):
         kinds += ['dtype']
     k = g.pick(kinds)
+    if k == 'alias-n':
+        c = [n for n in names if n == 'n' or env.vars[n].get('alias_n')]
+        if c:
+            n = g.pick(c)
+            v = env.vars[n]
+            return B.designator_for(env, n), {'type': 'int', 'dims': None, 'ro': True, 'alias_n': True}, \
+                ('sel:assoc-of-assoc' if v.get('aname') else 'sel:scalar')
+        k = 'scalar'
     if k == 'dtype':
         c = [n for n in names if env.vars[n].get('dt')]
         n = g.pick(c)
@@ -304,7 +333,10 @@ def pick_selector(g, env, a):
         n = g.pick(c)
         v = env.vars[n]
         feat = 'sel:component' if v.get('path') else ('sel:assoc-of-assoc' if v.get('aname') else 'sel:scalar')
-        return B.designator_for(env, n), {'type': v['type'], 'dims': None, 'ro': v.get('ro', False)}, feat
+        ent = {'type': v['type'], 'dims': None, 'ro': v.get('ro', False)}
+        if n == 'n' or v.get('alias_n'):
+            ent['alias_n'] = True      # the name denotes the argument n: usable as loop bound / selector subscript
+        return B.designator_for(env, n), ent, feat
     c = [n for n in plain if env.vars[n]['dims']]
     if not c:
         return None
@@ -312,7 +344,7 @@ def pick_selector(g, env, a):
     v = env.vars[n]
     feat_src = ':component' if v.get('path') else (':assoc-of-assoc' if v.get('aname') else '')
     if k == 'elem':
-        return sel_element(g, se, n), {'type': v['type'], 'dims': None, 'ro': v.get('ro', False)}, 'sel:elem' + feat_src
+        return sel_element(g, se, n, a), {'type': v['type'], 'dims': None, 'ro': v.get('ro', False)}, 'sel:elem' + feat_src
     if k == 'whole':
         ent = {'type': v['type'], 'dims': [list(d) for d in v['dims']], 'ro': v.get('ro', False)}
         if v.get('noopen'):
@@ -325,7 +357,7 @@ def pick_selector(g, env, a):
     for j, d in enumerate(v['dims']):
         lb, ubmin = B.dim_range(d)
         if j != keep and g.chance(50):
-            subs.append(sel_subscripts(g, se, n)[j])
+            subs.append(sel_subscripts(g, se, n, a)[j])
             continue
         forms = []
         if lb == 1:
@@ -344,7 +376,7 @@ def pick_selector(g, env, a):
         if 'sect-stride' in a.allow and ubmin - max(lb, 1) + 1 >= 3:
             forms += ['stride'] * 3
         if not forms:
-            subs.append(sel_subscripts(g, se, n)[j])
+            subs.append(sel_subscripts(g, se, n, a)[j])
             continue
         f = g.pick(forms)
         if f == 'full':
@@ -374,7 +406,7 @@ def pick_selector(g, env, a):
             partial = True
             a.feats.add('hazard:sect-stride')
     if not dims:
-        return sel_element(g, se, n), {'type': v['type'], 'dims': None, 'ro': v.get('ro', False)}, 'sel:elem' + feat_src
+        return sel_element(g, se, n, a), {'type': v['type'], 'dims': None, 'ro': v.get('ro', False)}, 'sel:elem' + feat_src
     base = B.designator_for(env, n)
     parts = [list(x) for x in base[1]]
     parts[-1][1] = subs
@@ -500,6 +532,10 @@ def gen_do(g, env, depth, nstmts, a):
     if use_n:
         env.active_loops[lv] = (1, 'n')
         hi_e = var('n')
+        aliases = sorted(nm for nm, vv in env.vars.items() if vv.get('alias_n') and vv.get('aname'))
+        if aliases and g.chance(70):
+            hi_e = var(g.pick(aliases))
+            a.feats.add('loop-bound:assoc-name')
         trip = 3
     else:
         hi = lo + trip - 1
@@ -610,6 +646,13 @@ def hazard_block(g, env, a, tag):
         inner = ['assoc', [['zq', B.elem('hzb', lit(g.i(1, 6)))]], [['assign', var('zq'), ['b', '+', lit(v2), var('xi0')]]]]
         blk = ['assoc', [['zh', B.elem('hza', lit(g.i(0, 4)))]], [['assign', var('zh'), lit(v1)], inner]]
         return [blk] + [obs('hzb', i) for i in range(1, 7)]
+    if tag == 'merge-subscript-dep':
+        # the subscript of the nested selector is an associate name of the parent block; the local variable of the
+        # same name has another value
+        inner = ['assoc', [['zq', B.elem('hzb', var('hzs'))], ['zk', var('zh')]],
+                 [['assign', var('zq'), ['b', '+', lit(v2), var('xi0')]], ['assign', var('zk'), ['b', '+', var('zk'), ['i', 1]]]]]
+        blk = ['assoc', [['hzs', var('n')], ['zh', B.elem('hza', lit(g.i(0, 4)))]], [['assign', var('zh'), lit(v1)], inner]]
+        return [['assign', var('hzs'), lit(1)], blk] + [obs('hzb', i) for i in range(1, 7)]
     raise ValueError(tag)
 
 
@@ -617,7 +660,7 @@ def hazard_block(g, env, a, tag):
 def gen_xforms(g, stream, hazard):
     if hazard in ('sect-lb', 'sect-stride', 'open-range'):
         return [{'entry': 'do_resolve_associates', 'start_depth': 0}]
-    if hazard in ('merge-shadow', 'merge-loopdep', 'merge-empties-inner'):
+    if hazard in ('merge-shadow', 'merge-loopdep', 'merge-empties-inner', 'merge-subscript-dep'):
         return [{'entry': 'do_merge_associates', 'max_parents': None}]
 
     def resolve(d):
@@ -671,7 +714,7 @@ def cases(draw, hazard=None, nvec=4):
     stream = 'hazard' if hazard else g.pick(['resolve', 'mixed', 'mixed'])
     xforms = gen_xforms(g, stream, hazard)
     merge_safe = any(x['entry'] == 'do_merge_associates' or x.get('merge_associates') for x in xforms)
-    a = A(merge_safe=merge_safe, allow=[], force=hazard)
+    a = A(merge_safe=merge_safe, allow=[h for h in HAZARDS if h not in EXCLUDED_TRIGGERS], force=hazard)
     a.lb_ia = g.pick([1, 1, 0, 2])
 
     # ---- arrays shared with helper subroutines, helpers, entry ----
